@@ -749,6 +749,8 @@ def check_C12(A, R, tier):
     # records are only ever compared through the configured comparison (otherwise 'unchanged' is judged textually)
     from rules_compare import rule_no_textual_record_compare
     rule_no_textual_record_compare(A, R, "R12.c")
+    from rules_compare import rule_comparison_pair
+    rule_comparison_pair(A, R, "R12.c")      # ... and the comparison is asked about the pair whose records it is given (= R15.4)
     # R12.p: jobs nobody can need are pruned completely at startup (otherwise they are invalidated on every start)
     rule_prune_fixpoint(A, R, "R12.p")
     R.explanation = ("Writer/reader agreement (necessary for the fixpoint): per key class the template new_history writes and the templates "
@@ -1291,3 +1293,44 @@ def rule_prune_fixpoint(A, R, rule):
             R.ob(rule, "%s | an Ephemeral whose direct downstreams are all Ephemerals is a pruning candidate" % short(fn), acc,
                  detail="the candidate predicate rejects an Ephemeral that has (only Ephemeral) downstreams: a dangling chain of Ephemerals "
                         "is then only pruned at its end and its inner members are re-evaluated on every start")
+    # the pruning is iterated to its fixpoint: removing a leaf turns its upstream into a leaf
+    hnames = set(hn)
+    for st in A.startup_runs()[:1]:
+        rms = st.by_kind("dag_remove_node")
+        for rm in rms:
+            fidr = rm.get("fid")
+            fnr = st.frames.get(fidr)
+            body = A.facts.body(fnr[0]) if fnr else None
+            if body is None:
+                continue
+            heads = [h for h in set(h for (_, h) in body.back_edges()) if rm["bb"] in body.natural_loop(h)]
+            # (a) some loop around the removal re-evaluates a 'has this job a neighbour' test (fixpoint iteration, not a single pass)
+            retest = False
+            for c in st.by_kind("call"):
+                if c["callee"] in hnames or c["callee"].endswith("::neighbors_directed"):
+                    pos = st.pos_in(c, fidr)
+                    if pos is not None and any(pos[1] in body.natural_loop(h) for h in heads):
+                        retest = True
+            R.ob(rule, "%s | the removal of leaf Ephemerals is iterated: a loop around it re-examines who has become a leaf" % short(body.name),
+                 bool(heads) and retest, detail="single pass: an Ephemeral that becomes a leaf only after its downstream was pruned stays in the graph, "
+                                               "never runs, never gets a record and makes its upstreams run on every evaluation", site=A.site(rm))
+            # (b) nothing is asked about a job's neighbours after the job was taken out of the graph (the answer is always 'none')
+            late = []
+            for nb in st.by_kind("neighbors"):
+                if nb["key"][0] is None or nb["key"][0] != rm["key"][0]:
+                    continue
+                com = st.common(rm, nb)
+                if com is None:
+                    continue
+                fidc, fnc, b_rm, b_nb = com
+                cb = A.facts.body(fnc)
+                from rules_protocol import key_binding
+                kb = key_binding(rm)
+                stop = {kb[1]} if (kb is not None and kb[0] == fidc) else set()
+                if b_nb != b_rm and b_nb in cb.reachable(b_rm, stop - {b_rm}):
+                    late.append(nb)
+                elif b_nb == b_rm and fidc != rm.get("fid") and False:
+                    pass
+            R.ob(rule, "%s | the neighbours of a pruned job are looked up before it is taken out of the graph, not after" % short(body.name),
+                 not late, detail="a neighbour query on a job that was already removed from the graph yields nothing: the upstreams that "
+                                  "became leaves are never found", site=A.site(late[0]) if late else "")
